@@ -1,4 +1,5 @@
 import GN.Props.C07
+import GN.EventLoop.Progress
 open GN.Props.C07
 #print axioms stop_waits_for_a_served_loop
 #print axioms chk_leads_out
@@ -7,3 +8,11 @@ open GN.Props.C07
 #print axioms stopNoWait_from_callback
 #print axioms nothing_lost
 #print axioms restart_enabled
+#print axioms GN.EventLoop.Progress.loop_step_decreases_measure
+#print axioms GN.EventLoop.Progress.other_step_bounded
+#print axioms GN.EventLoop.Progress.stop_returns_after_bounded_loop_steps
+#print axioms GN.EventLoop.Progress.stop_returns_after_seven_control_steps
+#print axioms GN.EventLoop.Progress.stop_needs_at_least
+#print axioms GN.EventLoop.Progress.loop_not_stuck_while_stop_waits
+#print axioms GN.EventLoop.Progress.stop_can_return
+#print axioms GN.EventLoop.Progress.no_bound_independent_of_submissions
